@@ -52,3 +52,24 @@ contract(NTY + "._look_for_tokens", params={"str_line": Str}, returns=List(Str),
                "decreases": "len(str_line) - current_first_index"}},
     ghost={"__locals__": {"result": List(Str)}}, props=["C06", "C04"],
     note="the scanner terminates on EVERY line (measure: characters left) and every token is non-empty; token ends come from the contracts above")
+
+# ---- lines handed to the tokenizer when the graph arrives as a raw string (C06, C08) -----------------------------------------------------
+import z3 as _z3
+RSL = "shexer.io.line_reader.raw_string_line_reader:RawStringLineReader"
+schema("RawLines", [RSL], {"_raw_string": Str})
+regex("ascii_blank", _z3.Star(_z3.Union(_z3.Re(" "), _z3.Re("\t"), _z3.Re("\n"), _z3.Re("\r"))))
+StrList = spectype("StrList", List(Str))
+specfun("n_nonblank", [StrList, Int], Int,
+        axioms=["forall(StrList, lambda L: n_nonblank(L, 0) == 0)",
+                "forall(StrList, Int, lambda L, i: implies(i >= 0, n_nonblank(L, i + 1) == n_nonblank(L, i) + ite(in_re(L[i], 'ascii_blank'), 0, 1)))"])
+PARTS = "py_split(self._raw_string, '\\n')"
+contract(RSL + ".read_lines", params={}, yields=Str,
+    ensures=["len(result) == n_nonblank(%s, len(%s))" % (PARTS, PARTS),
+             "forall(Int, lambda k: implies(0 <= k and k < len(%s) and not in_re(%s[k], 'ascii_blank'), result[n_nonblank(%s, k)] == %s[k]))" % ((PARTS,) * 4)],
+    raises=[], modifies=[],
+    loops={0: {"invariant": ["_seq0 == %s" % PARTS, "len(__yielded__) == n_nonblank(%s, _i0)" % PARTS,
+                             "forall(Int, lambda k: implies(0 <= k and k < _i0 and not in_re(%s[k], 'ascii_blank'), __yielded__[n_nonblank(%s, k)] == %s[k]))" % ((PARTS,) * 3),
+                             "forall(Int, lambda k: implies(0 <= k and k < _i0, 0 <= n_nonblank(%s, k) and n_nonblank(%s, k) <= n_nonblank(%s, k + 1) and n_nonblank(%s, k + 1) <= n_nonblank(%s, _i0)))" % ((PARTS,) * 5)]}},
+    axioms_of=["n_nonblank"], props=["C06", "C08"],
+    note="the statements delivered from a raw string are exactly the non-blank pieces between LINE FEED characters, in order: no other character "
+         "(U+2028, U+0085, FF, VT ... all legal inside an N-Triples/Turtle literal) ends a line, nothing is dropped, merged or reordered")
